@@ -31,6 +31,7 @@ struct Op {
     Kind kind = K_STOP;
     bool guard = false;
     bool barrier = false;
+    bool quiesce = false;   // release only once every other thread is blocked: with several such threads the lock never goes idle
 };
 
 const int MAXT = 16;
@@ -51,6 +52,10 @@ bool g_late[MAXT];          // worker starts only after main opened the gate
 bool g_late_go = false;
 bool g_idle_check = true;
 bool g_nested = false;
+int g_rep = 1;               // every worker runs its program this many times
+bool g_quiet_steps = false;  // no per-step projection records (very long executions)
+bool g_outer = false;        // every worker holds a read lock of a SECOND Resource (never written) around its whole program
+Resource *g_res2 = nullptr;
 
 const char *kname(int k) { return k == K_READ ? "Read" : k == K_WRITE ? "Write" : "-"; }
 
@@ -68,6 +73,7 @@ void do_pair(int t, Op op) {
             vs::block_until("barrier", [] { return g_barrier_inside >= g_barrier_target; });
         }
         vs::yield("cs");
+        if (op.quiesce) vs::wait_quiescent("busy");
         ev("RelCall", t, op.kind);
     };
     if (op.guard) {
@@ -96,23 +102,29 @@ void do_pair(int t, Op op) {
 
 void worker(int t) {
     if (g_late[t]) vs::block_until("late", [] { return g_late_go; });
+    // locks of different Resource objects are independent of each other: holding one must not change how another one behaves
+    if (g_outer) g_res2->lockRead();
+    int rep = 0;
     for (;;) {
         vs::yield("idle");
         Op op;
         if (g_scripted) {
             op = g_next[t];
             g_next[t] = Op();
-        } else if (g_pc[t] < g_prog[t].size()) {
-            op = g_prog[t][g_pc[t]++];
+        } else {
+            if (g_pc[t] >= g_prog[t].size() && ++rep < g_rep) g_pc[t] = 0;
+            if (g_pc[t] < g_prog[t].size()) op = g_prog[t][g_pc[t]++];
         }
-        if (op.kind == K_STOP) return;
+        if (op.kind == K_STOP) break;
         do_pair(t, op);
     }
+    if (g_outer) g_res2->unlockRead();
 }
 
 void scenario() {
-    Resource res;
+    Resource res, res2;
     g_res = &res;
+    g_res2 = &res2;
     if (g_main_hold) {
         g_kind_now[0] = K_WRITE;
         ev("AcqCall", 0, K_WRITE);
@@ -238,7 +250,7 @@ public:
     }
 
     void step_done(size_t i, const std::vector<vs::ThreadView> &tv) override {
-        if (i < nsetup) return;
+        if (i < nsetup || g_quiet_steps) return;
         out().raw("\"e\":\"Step\",\"i\":" + std::to_string(i - nsetup) + "," + projection(tv));
     }
     void before_run(int thread, const std::vector<vs::ThreadView> &tv) override {
@@ -278,9 +290,10 @@ Op parse_op(const std::string &s, size_t &i) {
     Op op;
     op.kind = s[i] == 'W' ? K_WRITE : K_READ;
     ++i;
-    if (i < s.size() && (s[i] == 'g' || s[i] == 'r' || s[i] == 'b')) {
+    if (i < s.size() && (s[i] == 'g' || s[i] == 'r' || s[i] == 'b' || s[i] == 'q')) {
         op.guard = s[i] == 'g';
         op.barrier = s[i] == 'b';
+        op.quiesce = s[i] == 'q';
         ++i;
     }
     return op;
@@ -294,6 +307,9 @@ void run_exec(const Execution &ex) {
     g_late_go = false;
     g_idle_check = ex.cfg.num("idlecheck", 1) != 0;
     g_nested = false;
+    g_rep = (int) ex.cfg.num("rep", 1);
+    g_quiet_steps = ex.cfg.num("quiet", 0) != 0;
+    g_outer = ex.cfg.num("outer", 0) != 0;
     g_barrier_target = (int) ex.cfg.num("barrier", 0);
     g_barrier_inside = 0;
     for (int t = 0; t < MAXT; ++t) {
@@ -343,6 +359,7 @@ void run_exec(const Execution &ex) {
         ctl.rng = vs::Rng((uint64_t) ex.cfg.num("seed", 1));
         if (rd_access_yield) rd_access_yield((int) ex.cfg.num("accy", 0), (unsigned) ex.cfg.num("seed", 1));
         if (ex.cfg.num("accy", 0)) ctl.max_steps *= 20;
+        if (g_rep > 1) ctl.max_steps = (size_t) g_rep * 400 + 100000;
         ctl.spurious_per_1000 = (int) ex.cfg.num("spurious", 0);
         // a timed wait (none in the code as it stands) may time out at any moment: the holder may be arbitrarily slow
         ctl.timeout_per_1000 = (int) ex.cfg.num("timeouts", 40);
